@@ -148,12 +148,17 @@ def importStmt (c : Ctx) (n : Nat) (s : PState) : PR (List Sx) :=
 /-! ## literals -/
 
 /-- decode a literal token through the oracle: an error, or the `Meta<Literal>`.
-Only the escape errors of string and character literals have a location of
-their own (`span.start + 1 + range`, from the oracle); every other decoding
-error (`ParseError::invalid_literal(…, span)`) cites the token's span. -/
+`unescape_str(trimmed, span)` with `span.start = token.start + 1` reports
+`span.start + range.start .. span.start + range.end` for the first fatal escape
+error; `unescape_char` reports the whole `token.start + 1 .. token.end`; every
+other decoding error (`ParseError::invalid_literal(…, span)`) cites the token. -/
 def decodeLit (c : Ctx) (k : TokKind) (sp : Span) (s : PState) : PR Node :=
   match c.lit false sp.1 sp.2 with
-  | some (ek, esp) => fail ek (if k = .string ∨ k = .char then esp else sp) s
+  | some (ek, _, a, b) =>
+    fail ek (match k with
+      | .string => (sp.1 + 1 + a, sp.1 + 1 + b)
+      | .char => (sp.1 + 1, sp.2)
+      | _ => sp) s
   | none => addNode sp (sx "Lit" []) s .ok
 
 /-- `Parser::ip_address` -/
@@ -338,15 +343,25 @@ def fPieces (t : List Char) : Res Unit :=
     | .panic => .panic
     | .ok _ => .ok ()
 
+/-- the pieces of an f-string text `unescape_f_string_part` decodes one by one:
+the ranges between doubled braces, then `piece_start..` -/
+def pieces (t : List Char) : List Span :=
+  (uScan .normal 0 0 t []).1 ++ [((uScan .normal 0 0 t []).2, blen t)]
+
+/-- piece `j` (the oracle names the piece whose decoding failed) -/
+def pieceOf (t : List Char) (j : Nat) : Span := (pieces t).getD j (0, blen t)
+
 /-- a non-empty text part of an f-string: `unescape_f_string_part` (its slices,
-then the oracle), then `spans.add(span, FStringPart::String(s))` -/
+then the oracle; an escape error in piece `j` is reported at
+`span.start + piece_start + range`), then `spans.add(span, FStringPart::String(s))` -/
 def fText (c : Ctx) (sp : Span) (parts : List Sx) (s : PState) : PR (List Sx) :=
   if sp.1 < sp.2 then
     match fPieces (textOf c.src sp) with
     | .panic => .panic
     | .ok _ =>
       match c.lit true sp.1 sp.2 with
-      | some (k, esp) => fail k esp s
+      | some (k, j, a, b) =>
+        fail k (sp.1 + (pieceOf (textOf c.src sp) j).1 + a, sp.1 + (pieceOf (textOf c.src sp) j).1 + b) s
       | none => addNode sp (sx "S" []) s fun p s => .ok (p.sx :: parts) s
   else .ok parts s
 
